@@ -363,6 +363,7 @@ func TestC02(t *testing.T) {
 			q.Close()
 		}
 	}()
+	known := core.KnownKeys()
 	var bgRunners = map[string]*BgRunner{}
 	defer func() {
 		for _, q := range bgRunners {
@@ -467,7 +468,22 @@ func TestC02(t *testing.T) {
 		})
 		nBgExplained += be
 		nBgRaced += br
-		return append(vs, bvs...)
+		vs = append(vs, bvs...)
+		// "... to the sequential durable-promise SPEC": the self-differential above shows that the history is equivalent
+		// to a sequential run of THIS code; that the sequential behaviour is the specified one is what the
+		// statement-derived oracles of the neighbouring properties say (status tables, exact time-outs, leases, locks,
+		// schedules). On this workload they count for C02 as well. Findings listed under another property are left
+		// to that property's check.
+		for _, v := range Judge(s) {
+			switch v.Prop {
+			case "C01", "C03", "C04", "C05", "C07", "C08", "C09", "C10":
+				if v.Key != "" && known[v.Key] {
+					continue
+				}
+				vs = append(vs, Violation{"C02", "spec/" + v.Prop + "-" + v.Code, "", "not what the sequential specification gives: " + v.Msg})
+			}
+		}
+		return vs
 	}
 	c.Finish = func(st *core.Stats) {
 		st.Extra["requests_explained_by_sequential_rerun"] = nExplained
